@@ -27,6 +27,18 @@ CHECKS = [
         "mathematical integers; exact small-integer floats. Bounded part: n_rdm<=6, n_cond<=8, stated in evidence.",
         "contract-based deductive verification: ast->z3 VC generation on the real source (map-loop summaries, havoc RNG), external z3 portfolio; bounded run-time oracles as stand-in for the rest",
         "DESIGN.md C05"),
+    chk("C14", "other",
+        "Engine A proves for all inputs, on the real AST of data/noise.py: dof of 2-D residuals = n-1 and of the (conditions x channels x "
+        "repetitions) tensor = observations - conditions; cov_from_unbalanced estimates residuals around per-condition means with dof = "
+        "n_obs - #conditions; every list branch of cov_from_residuals/measurements/unbalanced returns element i = single-input estimate of "
+        "element i with dof None / dof / dof[i]; every prec_from_* returns inv(cov) per element for list, 3-D and 2-D covariances. Engine B "
+        "(real functions on sympy object arrays) proves full = Xc'Xc/dof, diag = its diagonal, symmetry and measurement-based = unbalanced "
+        "for all real values at small shapes. Shrinkage convexity / lambda in [0,1] / PSD / numeric inverse are bounded run-time oracle "
+        "checks (not counted as proved).",
+        "Assumed: np.linalg.inv, np.mean, einsum as uninterpreted/pure; get_unique_inverse contract (bounded oracle); reals for floats; "
+        "engine-B proxy overrides listed in evidence. Bounded: shapes <= 4x3 (B), n<=12,p<=8 (C).",
+        "contract-based deductive verification (ast->z3 on real source) + symbolic execution of the real functions on sympy arrays + bounded oracles",
+        "DESIGN.md C14"),
 ]
 
 _PENDING = "contract written in DESIGN.md, machinery for this property not yet built and validated"
